@@ -1,0 +1,24 @@
+//go:build verif
+
+// Package verifhook provides yield points for the external verification harness.
+// It is only active when the code is built with the tag "verif".
+package verifhook
+
+import "sync/atomic"
+
+var hook atomic.Value // of func(point string, arg interface{})
+
+// Set installs (or, with nil, removes) the function that is called at every yield point.
+func Set(f func(point string, arg interface{})) {
+	if f == nil {
+		f = func(string, interface{}) {}
+	}
+	hook.Store(f)
+}
+
+// At is a yield point.
+func At(point string, arg interface{}) {
+	if f, ok := hook.Load().(func(string, interface{})); ok {
+		f(point, arg)
+	}
+}
